@@ -7,4 +7,4 @@ Extraction "model.ml" drv_b2n drv_n2b drv_z_of_n drv_n_of_z drv_nat_of_n drv_n_o
   range range_in_memory range_prefix range_in_memory_prefix get_all_descendants
   abs s_add s_fin s_step s_leaves s_best_hash s_is_descendant_of s_lca s_hash_by_number
   check_range check_range_in_memory check_blocks check_leaves check_pruned check_descendants
-  check_at_number s_known s_desc.
+  check_at_number check_at_number_full s_known s_desc.
